@@ -5,6 +5,30 @@ import json, os, subprocess
 VERIF = os.path.dirname(os.path.dirname(os.path.abspath(__file__)))
 
 CHECKS = {
+    "C01": {
+        "bins": ["router_run"], "bins_small": ["router_run"],
+        "category": "model_checking",
+        "text": "RouterSys.tla = Router.tla (a transcription of Router::events/consume, scheduler, waiters, per-filter logs, ack log, graveyard, slab key reuse) + the link side of every connection + clients. TLC checks exhaustively, for 2 clients, overlapping literal/+ filters, QoS 0-2 subscriptions and publishes, subscribe/unsubscribe, all interleavings of link pushes/drains/Ready and router steps (window 3, buffer 4, 2 scheduling iterations): what has been forwarded for every subscription is exactly the filter's log between the subscription's start and its cursor, in order (DeliveredExactly), nothing is forwarded for a filter the session does not subscribe (NoSpurious), every subscription has exactly one data request somewhere (NoLostRequest) and at quiescence every cursor is at the log's end (QuiescentComplete). The model is bound to the code by trace validation: TLC simulates the model with richer constants (3 nets, takeover, disconnects, pings, 3 filters incl. '#', a '$'-topic), the stimuli are executed on the real Router (scaled-constant build) and after every step the harness records the step's result and a projection of the whole routing state; TLC accepts a trace only if every step is a model step with exactly that state, and evaluates the property's invariants in every state. Seeded drivers at production constants (window 100, buffer 200, backlogs of 120-450 messages, four ack pacings) are validated the same way.",
+        "design_ref": "DESIGN.md section 6 / C01",
+        "note": "Trusted: Router.tla/RouterSys.tla as transcription of rumqttd/src/router (bound step by step by trace validation of the real router with a full state projection), TLC, the verif hooks that step the router single-threaded, the scripted clients of the harness. Exhaustive only for the small configurations; production constants (window 100, buffer 200) sampled by validated traces. Topic aliases, subscription ids, message expiry, segment eviction are not modelled here.",
+        "technique": "TLC model checking of RouterSys.tla + TLC trace validation (state projection per step, invariants on every trace state) of the real router stepped through TLC-generated and seeded schedules",
+    },
+    "C06": {
+        "bins": ["router_run"], "bins_small": ["router_run"],
+        "category": "model_checking",
+        "text": "Same model; ghost obligations per connection (PUBACK/PUBREC/PUBCOMP/SUBACK/UNSUBACK/PINGRESP in request order): every reply pushed must be the next one owed to that connection (AcksInOrder) and none is left at quiescence (QuiescentComplete); QoS 2 publishes reach the logs only on release (DeliveredExactly over the log contents). The model is bound to the code by trace validation: TLC simulates the model with richer constants (3 nets, takeover, disconnects, pings, 3 filters incl. '#', a '$'-topic), the stimuli are executed on the real Router (scaled-constant build) and after every step the harness records the step's result and a projection of the whole routing state; TLC accepts a trace only if every step is a model step with exactly that state, and evaluates the property's invariants in every state. Seeded drivers at production constants (window 100, buffer 200, backlogs of 120-450 messages, four ack pacings) are validated the same way.",
+        "design_ref": "DESIGN.md section 6 / C06",
+        "note": "Trusted: Router.tla/RouterSys.tla as transcription of rumqttd/src/router (bound step by step by trace validation of the real router with a full state projection), TLC, the verif hooks that step the router single-threaded, the scripted clients of the harness. Exhaustive only for the small configurations; production constants (window 100, buffer 200) sampled by validated traces. Topic aliases, subscription ids, message expiry, segment eviction are not modelled here.",
+        "technique": "TLC model checking of RouterSys.tla + TLC trace validation (state projection per step, invariants on every trace state) of the real router stepped through TLC-generated and seeded schedules",
+    },
+    "C09": {
+        "bins": ["router_run"], "bins_small": ["router_run"],
+        "category": "model_checking",
+        "text": "Same model with backlogs larger than the window, all ack pacings and an adversary sending arbitrary acks: inflight window never above the limit, ids unique and in range, forwarding resumes after in-order acks (QuiescentComplete), and handling one connection's packets never removes another connection (AckClosesOnlyThat). The model is bound to the code by trace validation: TLC simulates the model with richer constants (3 nets, takeover, disconnects, pings, 3 filters incl. '#', a '$'-topic), the stimuli are executed on the real Router (scaled-constant build) and after every step the harness records the step's result and a projection of the whole routing state; TLC accepts a trace only if every step is a model step with exactly that state, and evaluates the property's invariants in every state. Seeded drivers at production constants (window 100, buffer 200, backlogs of 120-450 messages, four ack pacings) are validated the same way.",
+        "design_ref": "DESIGN.md section 6 / C09",
+        "note": "Trusted: Router.tla/RouterSys.tla as transcription of rumqttd/src/router (bound step by step by trace validation of the real router with a full state projection), TLC, the verif hooks that step the router single-threaded, the scripted clients of the harness. Exhaustive only for the small configurations; production constants (window 100, buffer 200) sampled by validated traces. Topic aliases, subscription ids, message expiry, segment eviction are not modelled here.",
+        "technique": "TLC model checking of RouterSys.tla + TLC trace validation (state projection per step, invariants on every trace state) of the real router stepped through TLC-generated and seeded schedules",
+    },
     "C02": {
         "bins": ["client_sm", "client_loop"],
         "category": "model_checking",
